@@ -70,15 +70,18 @@ def _bg(bg):
 
 
 def cfg(expr="true", stop=False, dry=False, show_skipped=True, cont=False, capture=(True, True, True), wip=False, retry=False,
-        observe=False, async_steps=False, chatty=False, loglevel="", logfilter="", logclear=False, tamper=False, rootlvl0=False, names=None, async_timeout=False, cont_by_hook=False):
+        observe=False, async_steps=False, chatty=False, loglevel="", logfilter="", logclear=False, tamper=False, rootlvl0=False, names=None, async_timeout=False, cont_by_hook=False, setuplog="", capdeco=False):
     """loglevel: --logging-level (DEBUG / INFO / WARNING / ERROR / CRITICAL; "" = not given, behave's default INFO);
     logfilter: --logging-filter (comma separated logger names, a leading '-' excludes);
     wip: --wip (only @wip scenarios, --stop, no capture of stdout and logging);
     logclear: --logging-clear-handlers, the user's own root handler is then installed in before_all;
     names: None, or the ids of the scenarios (plain ones and outline rows) selected with --name (one anchored pattern each);
+    setuplog: "" or a level name: before_all calls context.config.setup_logging(level=<that level>) (public API);
+    capdeco: the after_scenario hook is wrapped with the @behave.log_capture.capture decorator;
     rootlvl0: the before_all hook sets the root logger's level to NOTSET (0);
     tamper: a failing / raising step body first replaces sys.stdout / sys.stderr (if captured) by a forwarding wrapper"""
-    return {"cont_by_hook": bool(cont_by_hook and not dry), "async_timeout": bool(async_timeout), "names": None if names is None else list(names), "rootlvl0": bool(rootlvl0), "wip": bool(wip), "logclear": bool(logclear), "tamper": bool(tamper), "loglevel": loglevel, "logfilter": logfilter, "observe": bool(observe), "async_steps": bool(async_steps), "chatty": bool(chatty), "expr": expr, "stop": stop, "dry": dry, "show_skipped": show_skipped, "cont": cont, "retry": bool(retry and not dry),
+    return {"setuplog": setuplog, "capdeco": bool(capdeco), "rootlvl0": bool(rootlvl0 and not setuplog),
+            "cont_by_hook": bool(cont_by_hook and not dry), "async_timeout": bool(async_timeout), "names": None if names is None else list(names), "wip": bool(wip), "logclear": bool(logclear), "tamper": bool(tamper), "loglevel": loglevel, "logfilter": logfilter, "observe": bool(observe), "async_steps": bool(async_steps), "chatty": bool(chatty), "expr": expr, "stop": stop, "dry": dry, "show_skipped": show_skipped, "cont": cont, "retry": bool(retry and not dry),
             "cap_out": capture[0], "cap_err": capture[1], "cap_log": capture[2]}
 
 
